@@ -1,6 +1,6 @@
 ---------------------------- MODULE Status_Judge ----------------------------
 (* TLC as judge for C09.  One line of obs.ndjson per real run (driver `status run`):             *)
-(*   [runner, kind, n, child, cn,             the case (Status_Gen)                              *)
+(*   [runner, kind, n, child, cn, core,       the case (Status_Gen)                              *)
 (*    status, exit, errlen, err,              runner.Result as reported by the runner            *)
 (*    report: << [t, v], ... >>, eof, ext,    what the probe itself wrote before / after its     *)
 (*                                            attempt: the kernel truth about what ended it      *)
@@ -59,8 +59,17 @@ Judge(o) ==
        ELSE IF a.k = "signal" /\ o.exit # ImplExit(o) THEN V("drift", "exit-value", a)
        ELSE V("ok", "", a)
 
-Bad == { i \in DOMAIN Obs : Judge(Obs[i]).j # "ok" }
-ASSUME ndJsonSerialize("bad.ndjson", SetToSeq({ [i |-> i] @@ Judge(Obs[i]) : i \in Bad }))
+\* core = 1 and the main process was ended by a core-dumping signal: was a dump produced here at all?
+\* (the probe's witness child; WCOREDUMP as seen by its parent).  No dump -> the case says nothing
+\* about the core flag: counted as vacuous (still judged as an ordinary case).
+TagV(o, tag) == LET i == CHOOSE i \in DOMAIN o.report : o.report[i].t = tag IN o.report[i].v
+CoreVacuous(o) ==
+  /\ o.core = 1 /\ o.setup = ""
+  /\ LET a == ActualEnd(o) IN a.k = "signal" /\ a.n \in CoreSigs
+  /\ ~(HasTag(o, "corewit") /\ TagV(o, "corewit") = 1)
+JudgeC(o) == LET v == Judge(o) IN IF v.j = "ok" /\ CoreVacuous(o) THEN [v EXCEPT !.j = "vacuous", !.why = "no-core-dump-produced"] ELSE v
+Bad == { i \in DOMAIN Obs : JudgeC(Obs[i]).j # "ok" }
+ASSUME ndJsonSerialize("bad.ndjson", SetToSeq({ [i |-> i] @@ JudgeC(Obs[i]) : i \in Bad }))
 ASSUME PrintT(<<"judged", Len(Obs), Cardinality(Bad)>>)
 VARIABLE x
 Init == x = 0
